@@ -48,6 +48,13 @@ impl SwiftField for Field55A {
         }
 
         // Parse BIC code
+        // Nothing may follow the BIC line
+        if lines.len() > line_idx + 1 {
+            return Err(ParseError::InvalidFormat {
+                message: "Field 55A has unexpected content after the BIC line".to_string(),
+            });
+        }
+
         let bic = parse_bic(lines[line_idx])?;
 
         Ok(Field55A {
